@@ -97,9 +97,10 @@ pub fn on_tt_record(hash: u64, score: i32, depth: u8, flag: HashFlag, ply: u8) {
 pub fn tt_bypass() -> bool { HS.with(|h| h.borrow().bypass_tt) }
 
 pub fn extra_poll(nodes: u64) -> bool {
+    // in a search stream: active + extra_every; in a scripted session: extra_every alone (set from JENCE_VERIF_EXTRA)
     HS.with(|h| {
         let h = h.borrow();
-        h.active && h.extra_every != 0 && (nodes & 16383 != 0) && nodes % h.extra_every == 0
+        h.extra_every != 0 && (nodes & 16383 != 0) && nodes % h.extra_every == 0
     })
 }
 
@@ -144,14 +145,11 @@ pub fn scripted_read_line() -> Option<String> {
                     println!("@READ {}", l);
                     Some(l.trim().to_string())
                 } else {
-                    // end of input: the real reader thread forwards "" forever
-                    sc.eof_reads += 1;
-                    if sc.eof_reads > 1000 {
-                        println!("@SPIN");
-                        std::io::stdout().flush().unwrap();
-                        std::process::exit(0);
-                    }
-                    Some(String::new())
+                    // the script (which ends with the reader thread's end-of-input "quit") is exhausted and the main loop still reads:
+                    // the real channel would be disconnected here
+                    println!("@READ-PAST-END");
+                    std::io::stdout().flush().unwrap();
+                    std::process::exit(3);
                 }
             }
         }
@@ -175,9 +173,7 @@ pub fn scripted_try_read_line() -> Option<Option<String>> {
                         Some(None)
                     }
                 } else {
-                    // after EOF every try_recv yields ""
-                    println!("@POLLREAD <eof>");
-                    Some(Some(String::new()))
+                    Some(None)      // channel empty (and disconnected): try_recv fails
                 }
             }
         }
@@ -396,7 +392,7 @@ fn do_searchseq(t: &[&str], tt: &mut TranspositionTable) -> String {
             h.bypass_tt = bypass; h.intercept = false; h.events.clear(); h.nevents = 0; h.end.clear(); });
         let io = IoWrapper::verif_detached();
         let (text, ok) = capture_stdout(|| { search(&mut game, depth, -1, &io, tt, &mut rep); });
-        let (events, nev, end) = HS.with(|h| { let mut h = h.borrow_mut(); h.active = false; h.trace = false; h.bypass_tt = false;
+        let (events, nev, end) = HS.with(|h| { let mut h = h.borrow_mut(); h.active = false; h.trace = false; h.bypass_tt = false; h.extra_every = 0;
             (std::mem::take(&mut h.events), h.nevents, std::mem::take(&mut h.end)) });
         let native: Vec<String> = text.lines().map(|l| mask_time(l)).collect();
         let same = (game_fields(&game) == before) as u8;
@@ -409,6 +405,30 @@ fn do_searchseq(t: &[&str], tt: &mut TranspositionTable) -> String {
     answers.join(" ## ")
 }
 
+// fen <text>: Game::new_from_fen on the raw text (everything after "fen ")
+fn do_fen(text: &str) -> String {
+    let t = text.to_string();
+    match std::panic::catch_unwind(move || Game::new_from_fen(t.as_str())) {
+        Err(_) => "PANIC".to_string(),
+        Ok(None) => "NONE".to_string(),
+        Ok(Some(g)) => game_fields(&g),
+    }
+}
+
+// position <text>: the private parse_position on the raw text with a cleared repetition table; answer: game fields | history keys
+fn do_position(text: &str) -> String {
+    let t = text.to_string();
+    match std::panic::catch_unwind(move || {
+        let mut rep = RepetitionTable::new();
+        let p = parse_position(t, &mut rep);
+        (p, rep.table[..rep.index].to_vec())
+    }) {
+        Err(_) => "PANIC".to_string(),
+        Ok((None, _)) => "NONE".to_string(),
+        Ok((Some(g), keys)) => format!("{} | {}", game_fields(&g), keys.iter().map(|k| format!("{:x}", k)).collect::<Vec<String>>().join(" ")),
+    }
+}
+
 fn do_batch() {
     let stdin = std::io::stdin();
     let stdout = std::io::stdout();
@@ -419,6 +439,9 @@ fn do_batch() {
         let line = line.unwrap();
         let toks: Vec<&str> = line.split_whitespace().collect();
         if toks.is_empty() { continue; }
+        // raw-text requests keep the exact spacing of the rest of the line
+        if line.starts_with("fen ") { writeln!(out, "{}", do_fen(&line[4..])).unwrap(); continue; }
+        if line.starts_with("position ") { writeln!(out, "{}", do_position(&line[9..])).unwrap(); continue; }
         let ans = match toks[0] {
             "tt" => do_tt(&toks[1..], &mut tt),
             "go" => do_go(&toks[1..], &mut tt),
@@ -448,7 +471,11 @@ pub fn run_if_requested() -> bool {
                 let d: u64 = sp.next().unwrap().parse().unwrap();
                 lines.push((d, sp.next().unwrap_or("").to_string()));
             }
+            // end of input: the reader thread sends "quit" (after the fix of the EOF spin) -- unless the script says @NOEOF
+            if lines.last().map(|l| l.1.as_str()) == Some("@NOEOF") { lines.pop(); } else { lines.push((0, "quit".to_string())); }
             SCRIPT.with(|s| *s.borrow_mut() = Some(Script { lines, next: 0, polls_waited: 0, eof_reads: 0 }));
+            let extra: u64 = std::env::var("JENCE_VERIF_EXTRA").ok().and_then(|x| x.parse().ok()).unwrap_or(0);
+            HS.with(|h| h.borrow_mut().extra_every = extra);
             false   // fall through into the real main loop, which now reads the script
         }
         _ => { eprintln!("unknown verif mode"); true }
